@@ -392,6 +392,20 @@ def run(ck: Check):
         if t[0] == 24:
             t[0] = 0
         add({"op": "time_std", "v": t}, kind="time_std")
+    # standard-library conversions on ANY value (also outside what the stdlib types hold: year 0 / 10000 /
+    # negative, 24:00:00, nanoseconds), model = implementation incl. which values raise
+    for _ in range(120 * N):
+        v = g_value_datetime(r, small=r.random() < 0.8)
+        if r.random() < 0.7:
+            v[0] = r.choice([0, 1, 2, 9998, 9999, 10000, -1, r.randint(1, 9999)])
+            v[1], v[2] = g_md(r, v[0])
+        add({"op": "std_any", "t": "datetime", "v": v}, kind="std_any_datetime")
+        add({"op": "std_any", "t": "time", "v": g_value_time(r)}, kind="std_any_time")
+        d = v[:3] + [v[7]]
+        add({"op": "std_any", "t": "date", "v": d}, kind="std_any_date")
+    for tzm in [None, 0, 60, -60, 120, 330, -480, 840, -840, 765]:
+        add({"op": "now", "tz": tzm, "utc": False}, kind="now")
+    add({"op": "now", "tz": 0, "utc": True}, kind="now")
     for _ in range(400 * N):
         add({"op": "period", "s": g_period(r)}, kind="period", sp=None)
         pt, pterm = g_period_sp(r)
@@ -498,6 +512,41 @@ def run(ck: Check):
     terms = [f"({tup(it[1]['v'])}, {tup(it[2]['ok'])}, {tup(it[2]['t'])})" for it in ok_items]
     for it in run_pred("oracle_time_std", "list (option Z) * list (option Z) * list (option Z)", "oracle_time_std", ok_items, terms):
         ck.failure("time-std-conversion", f"XmlTime{it[1]['v']} -> time -> XmlTime gives {it[2]}", {"op": it[1], "impl": it[2]})
+    # ---- standard-library conversions: model = implementation, and the spec's microsecond timeline = CPython's
+    def std_obs(rs, keys):
+        if "err" in rs:
+            return "None"
+        return "(Some (" + ", ".join(tup(rs[k]) for k in keys) + "))"
+    t_std = "list (option Z) * option (list (option Z) * list (option Z))"
+    for kind, pred, keys, ct in (("std_any_datetime", "agree_datetime_std", ("fields", "back"), t_std),
+                                 ("std_any_time", "agree_time_std", ("fields", "back"), t_std),
+                                 ("std_any_date", "agree_date_std", ("dfields", "fields", "back_d", "back_dt"),
+                                  "list (option Z) * option (list (option Z) * list (option Z) * list (option Z) * list (option Z))")):
+        items = cases_of(kind)
+        for it in items:
+            distinct.add((kind, tuple(it[1]["v"])))
+            if "err" in it[2] and it[2]["err"] != "ValueError":
+                ck.failure("std-conversion-undocumented-exception", f"{kind} {it[1]['v']}: {it[2]}", {"op": it[1], "impl": it[2]})
+        terms = [f"({tup(it[1]['v'])}, {std_obs(it[2], keys)})" for it in items]
+        for it in run_pred(kind, ct, pred, items, terms):
+            ck.failure("corr-" + kind, f"model and implementation disagree on the stdlib conversion of {it[1]['v']}: {it[2]}", {"op": it[1], "impl": it[2]})
+    items = [it for it in cases_of("std_any_datetime") if "us" in it[2]]
+    terms = [f"({tup(it[2]['fields'])}, {cZ(it[2]['us'])})" for it in items]
+    for it in run_pred("std_instant", "list (option Z) * Z", "oracle_std_instant", items, terms):
+        ck.failure("spec-timeline-differs-from-cpython", f"instant_us of {it[2]['fields']} is not CPython's (obj - epoch) = {it[2]['us']} us", {"op": it[1], "impl": it[2]})
+    items = cases_of("now")
+    for it in items:
+        if "err" in it[2]:
+            ck.failure("now-raises", f"now({it[1]}) raised {it[2]}", {"op": it[1], "impl": it[2]})
+    items = [it for it in items if "t" in it[2]]
+    want = [copt(0 if it[1]["utc"] else it[1]["tz"], cZ) for it in items]
+    terms = [f"({w}, {tup(it[2]['t'])}, {cZ(it[2]['lo'])}, {cZ(it[2]['hi'])})" for it, w in zip(items, want)]
+    for it in run_pred("time_now", "option Z * list (option Z) * Z * Z", "oracle_time_now", items, terms):
+        ck.failure("time-now-loses-zone-or-instant", f"XmlTime.now/utcnow for tz={it[1]['tz']} minutes gave {it[2]['t']} (reference readings {it[2]['lo']}..{it[2]['hi']} us of day)", {"op": it[1], "impl": it[2]})
+    terms = [f"({w}, {tup(it[2]['dt'])}, {cZ(it[2]['lo'])}, {cZ(it[2]['hi'])})" for it, w in zip(items, want)]
+    for it in run_pred("datetime_now", "option Z * list (option Z) * Z * Z", "oracle_datetime_now", items, terms):
+        ck.failure("datetime-now-loses-zone-or-instant", f"XmlDateTime.now/utcnow for tz={it[1]['tz']} minutes gave {it[2]['dt']}", {"op": it[1], "impl": it[2]})
+    ck.cov["evaluations"] += 0
     items = cases_of("period")
     terms = [f"({cstr(it[1]['s'])}, {obs_tuple(it[2])})" for it in items]
     for it in items:
